@@ -41,10 +41,12 @@ func emit(l childLine) {
 	outF.Write(append(b, '\n'))
 	outMu.Unlock()
 }
-func viol(key, what string, cs map[string]any) { emit(childLine{T: "v", Key: key, What: what, Case: cs}) }
-func count(key string, n int)                  { emit(childLine{T: "c", Key: key, N: int64(n)}) }
-func nontrivial(fp string)                     { emit(childLine{T: "nt", Key: fp}) }
-func inconclusive(what string)                 { emit(childLine{T: "i", What: what}) }
+func viol(key, what string, cs map[string]any) {
+	emit(childLine{T: "v", Key: key, What: what, Case: cs})
+}
+func count(key string, n int)  { emit(childLine{T: "c", Key: key, N: int64(n)}) }
+func nontrivial(fp string)     { emit(childLine{T: "nt", Key: fp}) }
+func inconclusive(what string) { emit(childLine{T: "i", What: what}) }
 func pick(q, t int) int {
 	if thorough {
 		return t
@@ -225,6 +227,17 @@ type nbReq struct {
 	id   uint16
 	name string
 	ip   net.IP
+	neg  bool // the name is not registered: a negative response (rcode != 0, no answers) is expected
+}
+
+// reqFor returns the i-th request of client c: every third one asks for a name nobody holds, so
+// that positive and negative responses alternate on the same socket/connection.
+func reqFor(c, i int) nbReq {
+	id := uint16(c*4000 + i + 1)
+	if i%3 == 2 {
+		return nbReq{id: id, name: fmt.Sprintf("Z%02dX%04d", c, i), neg: true}
+	}
+	return nbReq{id: id, name: nbName(c, i), ip: nbIP(c, i)}
 }
 
 // judgeNB checks one response against the outstanding requests of one client socket.
@@ -251,6 +264,12 @@ func judgeNB(kind string, scen string, raw []byte, outstanding map[uint16]nbReq,
 	answered[req.id] = true
 	if resp.Header.Flags&0x8000 == 0 {
 		viol("nbns."+kind+":not-a-response", "response bit not set", cs)
+	}
+	if req.neg {
+		if resp.Header.Flags&0x000F == 0 || len(resp.Answers) != 0 || resp.Header.Answers != 0 {
+			viol("nbns."+kind+":negative-response", fmt.Sprintf("request %#04x for the unregistered name %s answered with rcode %d, ANCOUNT %d and %d answers", req.id, req.name, resp.Header.Flags&0xF, resp.Header.Answers, len(resp.Answers)), cs)
+		}
+		return
 	}
 	if resp.Header.Flags&0x000F != 0 || len(resp.Answers) == 0 {
 		viol("nbns."+kind+":cross-talk", fmt.Sprintf("request %#04x for registered name %s answered with rcode %d and %d answers", req.id, req.name, resp.Header.Flags&0xF, len(resp.Answers)), cs)
@@ -301,8 +320,12 @@ func nbPairingUDP(kind string, nClients, mReq, mode int, run int) {
 			answered := map[uint16]bool{}
 			r := rng(fmt.Sprintf("%s|%d", scen, c))
 			for i := 0; i < mReq; i++ {
-				id := uint16(c*4000 + i + 1)
-				outstanding[id] = nbReq{id, nbName(c, i), nbIP(c, i)}
+				rq := reqFor(c, i)
+				outstanding[rq.id] = rq
+			}
+			window := make(chan struct{}, 8)
+			for k := 0; k < cap(window); k++ {
+				window <- struct{}{}
 			}
 			done := make(chan struct{})
 			go func() { // receiver
@@ -316,17 +339,25 @@ func nbPairingUDP(kind string, nClients, mReq, mode int, run int) {
 					}
 					judgeNB(kind, scen, append([]byte{}, buf[:n]...), outstanding, answered)
 					got.Add(1)
+					select {
+					case window <- struct{}{}:
+					default:
+					}
 				}
 			}()
 			for i := 0; i < mReq; i++ {
-				id := uint16(c*4000 + i + 1)
-				conn.Write(nbQuery(id, nbName(c, i)))
+				// closed loop: at most cap(window) requests of this client in flight, so the
+				// server's socket buffer cannot overflow whatever the machine load; a lost
+				// datagram frees its slot after 300 ms
+				select {
+				case <-window:
+				case <-time.After(300 * time.Millisecond):
+				}
+				rq := reqFor(c, i)
+				conn.Write(nbQuery(rq.id, rq.name))
 				sent.Add(1)
 				if r.IntN(4) == 0 {
 					runtime.Gosched()
-				}
-				if i%4 == 3 {
-					time.Sleep(time.Millisecond) // keep the server's socket buffer from overflowing
 				}
 			}
 			<-done
@@ -394,10 +425,10 @@ func nbPairingTCP(nClients, mReq, run int) {
 			var order []uint16
 			var stream []byte
 			for i := 0; i < mReq; i++ {
-				id := uint16(c*4000 + i + 1)
-				outstanding[id] = nbReq{id, nbName(c, i), nbIP(c, i)}
-				order = append(order, id)
-				stream = append(stream, nbFrame(nbQuery(id, nbName(c, i)))...)
+				rq := reqFor(c, i)
+				outstanding[rq.id] = rq
+				order = append(order, rq.id)
+				stream = append(stream, nbFrame(nbQuery(rq.id, rq.name))...)
 			}
 			done := make(chan struct{})
 			go func() {
@@ -578,7 +609,7 @@ func nbOpcodes(kind string) {
 			rq, ok := nbExchange(kind, addr, nbQuery(id, "OP00QUERY"))
 			evals.Add(1)
 			if ok {
-				out := map[uint16]nbReq{id: {id, "OP00QUERY", ipA}}
+				out := map[uint16]nbReq{id: {id: id, name: "OP00QUERY", ip: ipA}}
 				judgeNB(kind, "opcodes", rq, out, map[uint16]bool{})
 			} else {
 				viol(key+":query-unanswered", "a NAME QUERY REQUEST for a registered name got no response", cs)
@@ -683,6 +714,8 @@ func llmnrHandler() llmnr.Handler {
 	})
 }
 
+var llmnrDebug bool // scenarios alternate the server's Debug option
+
 func startLLMNR() (*llmnr.Server, *net.UDPConn, chan error, error) {
 	conn, err := net.ListenUDP("udp4", &net.UDPAddr{IP: net.IP{127, 0, 0, 1}})
 	if err != nil {
@@ -693,13 +726,16 @@ func startLLMNR() (*llmnr.Server, *net.UDPConn, chan error, error) {
 		return nil, nil, nil, err
 	}
 	srv.Conn = conn
+	srv.SetDebug(llmnrDebug)
 	done := make(chan error, 1)
 	go func() { done <- srv.Serve() }()
 	return srv, conn, done, nil
 }
 
 func llmnrPairing(nClients, mReq, mode, run int) {
-	scen := fmt.Sprintf("llmnr-pairing/c%d/m%d/mode%d/run%d", nClients, mReq, mode, run)
+	llmnrDebug = (run+mode)%2 == 1 && nClients <= 8 // the Debug server prints every datagram and is slow
+	defer func() { llmnrDebug = false }()
+	scen := fmt.Sprintf("llmnr-pairing/c%d/m%d/mode%d/run%d/debug%v", nClients, mReq, mode, run, llmnrDebug)
 	tr.reset(mode)
 	srv, sconn, done, err := startLLMNR()
 	if err != nil {
@@ -723,6 +759,10 @@ func llmnrPairing(nClients, mReq, mode, run int) {
 			answered := map[uint16]bool{}
 			for i := 0; i < mReq; i++ {
 				outstanding[uint16(c*4000+i+1)] = req{llName(c, i), llIP(c, i)}
+			}
+			lwindow := make(chan struct{}, 8)
+			for k := 0; k < cap(lwindow); k++ {
+				lwindow <- struct{}{}
 			}
 			fin := make(chan struct{})
 			go func() {
@@ -753,6 +793,10 @@ func llmnrPairing(nClients, mReq, mode, run int) {
 						continue
 					}
 					answered[m.ID] = true
+					select {
+					case lwindow <- struct{}{}:
+					default:
+					}
 					if len(m.Answers) != 1 || m.Answers[0].Name != rq.name || net.IP(m.Answers[0].RData).String() != rq.ip || !m.IsResponse() {
 						viol("llmnr.Server:cross-talk", fmt.Sprintf("request %#04x asked %s (%s); the response with that id is %+v", m.ID, rq.name, rq.ip, m.Answers), cs)
 					}
@@ -764,11 +808,25 @@ func llmnrPairing(nClients, mReq, mode, run int) {
 				q.SetQuery()
 				q.AddQuestion(llName(c, i), llmnr.TypeA, llmnr.ClassIN)
 				b, _ := q.Encode()
+				// datagrams a server must shrug off, in between the queries: a response (QR=1),
+				// garbage, a truncated query
+				switch i % 7 {
+				case 2:
+					rb := append([]byte{}, b...)
+					rb[2] |= 0x80
+					rb[0], rb[1] = 0xEE, byte(i)
+					conn.Write(rb)
+				case 4:
+					conn.Write([]byte{0xde, 0xad, 0xbe, 0xef, byte(i)})
+				case 6:
+					conn.Write(b[:len(b)/2])
+				}
+				select {
+				case <-lwindow:
+				case <-time.After(300 * time.Millisecond):
+				}
 				conn.Write(b)
 				sent.Add(1)
-				if i%4 == 3 {
-					time.Sleep(time.Millisecond)
-				}
 			}
 			<-fin
 		}(c)
@@ -801,7 +859,9 @@ func llmnrShutdown(trials int) {
 	r := rng("llmnr-shutdown")
 	for t := 0; t < trials; t++ {
 		tr.reset(t % 3)
+		llmnrDebug = t%4 == 3
 		srv, sconn, done, err := startLLMNR()
+		llmnrDebug = false
 		if err != nil {
 			inconclusive("llmnr-shutdown: " + err.Error())
 			return
@@ -813,10 +873,15 @@ func llmnrShutdown(trials int) {
 			q.SetQuery()
 			q.AddQuestion(llName(0, i), llmnr.TypeA, llmnr.ClassIN)
 			b, _ := q.Encode()
+			if i%3 == 1 {
+				rb := append([]byte{}, b...)
+				rb[2] |= 0x80 // a response datagram: must be ignored
+				conn.Write(rb)
+			}
 			conn.Write(b)
 		}
 		evals.Add(1)
-		cs := map[string]any{"trial": t, "requests_sent_before_close": k}
+		cs := map[string]any{"trial": t, "requests_sent_before_close": k, "debug": t%4 == 3}
 		closed := within(progressLimit, func() { srv.Close(); srv.Close() })
 		ret := false
 		select {
